@@ -494,7 +494,7 @@ def choice_table(fn_node: ast.AST, var: str, atoms: dict[str, list], oracle=None
     return table
 
 
-def subst_locals(fn_node: ast.AST, expr: ast.expr, keep: set[str] | None = None) -> ast.expr:
+def subst_locals(fn_node: ast.AST, expr: ast.expr, keep: set[str] | None = None, conditions: bool = False) -> ast.expr:
     """expr with every local name that is assigned exactly once in the function, from a pure attribute chain / name / subscript of one, replaced by
     that definition (an alias such as `echoed = payload.PreviousDiagnosticMessageData`). Names in `keep`, parameters and re-assigned locals stay."""
     import copy
@@ -511,7 +511,17 @@ def subst_locals(fn_node: ast.AST, expr: ast.expr, keep: set[str] | None = None)
 
     def chain(e: ast.expr) -> bool:
         return isinstance(e, ast.Name) or (isinstance(e, ast.Attribute) and chain(e.value))
-    alias = {k: v[0] for k, v in defs.items() if len(v) == 1 and chain(v[0]) and not isinstance(v[0], ast.Name) and k not in (keep or set())}
+    def cond_expr(e: ast.expr) -> bool:
+        # a named condition: comparisons / boolean operators / isinstance / any / all / len over attribute chains and constants (no other calls, no await)
+        for x in ast.walk(e):
+            if isinstance(x, (ast.Await, ast.NamedExpr, ast.Yield, ast.YieldFrom, ast.Lambda)):
+                return False
+            if isinstance(x, ast.Call) and ast.unparse(x.func) not in ("isinstance", "any", "all", "len") \
+                    and not (isinstance(x.func, ast.Attribute) and x.func.attr in ("values", "keys", "items") and not x.args and not x.keywords):
+                return False
+        return isinstance(e, (ast.Compare, ast.BoolOp, ast.UnaryOp)) or (isinstance(e, ast.Call) and ast.unparse(e.func) in ("isinstance", "any", "all"))
+    alias = {k: v[0] for k, v in defs.items() if len(v) == 1 and k not in (keep or set())
+             and ((chain(v[0]) and not isinstance(v[0], ast.Name)) or (conditions and cond_expr(v[0])))}
 
     class S(ast.NodeTransformer):
         def visit_Name(self, node: ast.Name) -> ast.AST:
